@@ -394,6 +394,96 @@ theorem red3_flatten [Add α] [Zero α] (k : List α → List α → List α →
     simp [flatten, red3, ihf _ _ h.1 h'.1, ihr _ _ h.2 h'.2,
       hk _ _ _ _ _ _ (sameShape_length _ _ h.1) (sameShape_length _ _ h'.1)]
 
+/-! ### the explicit recursions of the member functions are the generic leaf-wise combinators
+(every argument arrives unchanged at every leaf) -/
+
+theorem axpy_eq_map2 [Add α] [Mul α] [One α] (al : Bool) (a : α) (r x : MVec α) :
+    MVec.axpy al a r x = map2 (axpyK al a) r x := by
+  induction r generalizing x with
+  | dense d => cases x <;> simp [MVec.axpy, map2]
+  | blocked b d => cases x <;> simp [MVec.axpy, map2]
+  | tupleOne f ih => cases x <;> simp [MVec.axpy, map2, ih]
+  | tupleCons f r ihf ihr => cases x <;> simp [MVec.axpy, map2, ihf, ihr]
+  | powerOne f ih => cases x <;> simp [MVec.axpy, map2, ih]
+  | powerCons f r ihf ihr => cases x <;> simp [MVec.axpy, map2, ihf, ihr]
+
+theorem scale_eq_map2 [Mul α] (al : Bool) (a : α) (r x : MVec α) :
+    MVec.scale al a r x = map2 (scaleK al a) r x := by
+  induction r generalizing x with
+  | dense d => cases x <;> simp [MVec.scale, map2]
+  | blocked b d => cases x <;> simp [MVec.scale, map2]
+  | tupleOne f ih => cases x <;> simp [MVec.scale, map2, ih]
+  | tupleCons f r ihf ihr => cases x <;> simp [MVec.scale, map2, ihf, ihr]
+  | powerOne f ih => cases x <;> simp [MVec.scale, map2, ih]
+  | powerCons f r ihf ihr => cases x <;> simp [MVec.scale, map2, ihf, ihr]
+
+theorem componentInvert_eq_map2 [Div α] (al : Bool) (a : α) (r x : MVec α) :
+    MVec.componentInvert al a r x = map2 (cinvK al a) r x := by
+  induction r generalizing x with
+  | dense d => cases x <;> simp [MVec.componentInvert, map2]
+  | blocked b d => cases x <;> simp [MVec.componentInvert, map2]
+  | tupleOne f ih => cases x <;> simp [MVec.componentInvert, map2, ih]
+  | tupleCons f r ihf ihr => cases x <;> simp [MVec.componentInvert, map2, ihf, ihr]
+  | powerOne f ih => cases x <;> simp [MVec.componentInvert, map2, ih]
+  | powerCons f r ihf ihr => cases x <;> simp [MVec.componentInvert, map2, ihf, ihr]
+
+theorem componentProduct_eq_map3 [Mul α] (rx ry : Bool) (r x y : MVec α) :
+    MVec.componentProduct rx ry r x y = map3 (cprodK rx ry) r x y := by
+  induction r generalizing x y with
+  | dense d => cases x <;> cases y <;> simp [MVec.componentProduct, map3]
+  | blocked b d => cases x <;> cases y <;> simp [MVec.componentProduct, map3]
+  | tupleOne f ih => cases x <;> cases y <;> simp [MVec.componentProduct, map3, ih]
+  | tupleCons f r ihf ihr => cases x <;> cases y <;> simp [MVec.componentProduct, map3, ihf, ihr]
+  | powerOne f ih => cases x <;> cases y <;> simp [MVec.componentProduct, map3, ih]
+  | powerCons f r ihf ihr => cases x <;> cases y <;> simp [MVec.componentProduct, map3, ihf, ihr]
+
+theorem copy_false_eq_map2 (r x : MVec α) :
+    MVec.copy false r x = map2 (fun r x => List.zipWith (fun _ xi => xi) r x) r x := by
+  induction r generalizing x with
+  | dense d => cases x <;> simp [MVec.copy, map2]
+  | blocked b d => cases x <;> simp [MVec.copy, map2]
+  | tupleOne f ih => cases x <;> simp [MVec.copy, map2, ih]
+  | tupleCons f r ihf ihr => cases x <;> simp [MVec.copy, map2, ihf, ihr]
+  | powerOne f ih => cases x <;> simp [MVec.copy, map2, ih]
+  | powerCons f r ihf ihr => cases x <;> simp [MVec.copy, map2, ihf, ihr]
+
+theorem copy_true_eq (r x : MVec α) : MVec.copy true r x = r := by
+  induction r generalizing x with
+  | dense d => cases x <;> simp [MVec.copy]
+  | blocked b d => cases x <;> simp [MVec.copy]
+  | tupleOne f ih => cases x <;> simp [MVec.copy, ih]
+  | tupleCons f r ihf ihr => cases x <;> simp [MVec.copy, ihf, ihr]
+  | powerOne f ih => cases x <;> simp [MVec.copy, ih]
+  | powerCons f r ihf ihr => cases x <;> simp [MVec.copy, ihf, ihr]
+
+theorem format_eq_map1 (v : α) (r : MVec α) : MVec.format v r = map1 (fun d => d.map fun _ => v) r := by
+  induction r with
+  | dense d => rfl
+  | blocked b d => rfl
+  | tupleOne f ih => simp [MVec.format, map1, ih]
+  | tupleCons f r ihf ihr => simp [MVec.format, map1, ihf, ihr]
+  | powerOne f ih => simp [MVec.format, map1, ih]
+  | powerCons f r ihf ihr => simp [MVec.format, map1, ihf, ihr]
+
+theorem dot_eq_red2 [Add α] [Mul α] [Zero α] (al : Bool) (x y : MVec α) : MVec.dot al x y = red2 (dotK al) x y := by
+  induction x generalizing y with
+  | dense d => cases y <;> simp [MVec.dot, red2]
+  | blocked b d => cases y <;> simp [MVec.dot, red2]
+  | tupleOne f ih => cases y <;> simp [MVec.dot, red2, ih]
+  | tupleCons f r ihf ihr => cases y <;> simp [MVec.dot, red2, ihf, ihr]
+  | powerOne f ih => cases y <;> simp [MVec.dot, red2, ih]
+  | powerCons f r ihf ihr => cases y <;> simp [MVec.dot, red2, ihf, ihr]
+
+theorem tripleDot_eq_red3 [Add α] [Mul α] [Zero α] (xy xz yz : Bool) (x y z : MVec α) :
+    MVec.tripleDot xy xz yz x y z = red3 (tdotK xy xz yz) x y z := by
+  induction x generalizing y z with
+  | dense d => cases y <;> cases z <;> simp [MVec.tripleDot, red3]
+  | blocked b d => cases y <;> cases z <;> simp [MVec.tripleDot, red3]
+  | tupleOne f ih => cases y <;> cases z <;> simp [MVec.tripleDot, red3, ih]
+  | tupleCons f r ihf ihr => cases y <;> cases z <;> simp [MVec.tripleDot, red3, ihf, ihr]
+  | powerOne f ih => cases y <;> cases z <;> simp [MVec.tripleDot, red3, ih]
+  | powerCons f r ihf ihr => cases y <;> cases z <;> simp [MVec.tripleDot, red3, ihf, ihr]
+
 /-- with a square root that is exact on sums of squares, `norm2sqr` is the sum of squares of the flat data -/
 theorem norm2sqr_flatten [Semiring α] (sqrt : α → α)
     (hs : ∀ l : List α, sqrt (sumSq l) * sqrt (sumSq l) = sumSq l) (v : MVec α) :
